@@ -57,7 +57,8 @@ RULE = ("one evaluation = one locate_droplets(refine=True) call on a rendered im
         "unpickled field, all-negative intensities, contrast 2^-20 ... 2^40 with offsets up to 1000 contrasts), options (threshold 'auto', numeric threshold and levels as "
         "numpy scalar / 0-d array / int, tolerance and least_squares_params in refine_args -- the caller's dicts compared afterwards --, "
         "minimal_radius 0 / negative / -inf / half the radius, interface_width start value, modes 2 / 3, num_processes 2, the same "
-        "call repeated on the same objects); all non-trivial (the candidate differs from the truth); distinct by the full case")
+        "call repeated on the same objects); annular stream: polar / spherical grids with a core of 1, 4, 8, 16 cells removed x "
+        "threshold rule x level option (full product, 96 cases), the candidate's radius error before refinement counted; all non-trivial (the candidate differs from the truth); distinct by the full case")
 
 RULES = ["extrema", "mean", "otsu", "numeric"]
 OPTS = ["supplied", "supplied+fitted", "auto+fitted"]
@@ -351,6 +352,63 @@ def _gen_dim_single(rng: random.Random, k: int) -> dict:
     return {"grid": gs, "image": isp, "rule": rule, "opt": opt, "straddles": how, "dim": "options:" + kind, "extra": extra}
 
 
+ANNULAR_CORES = [1, 4, 8, 16]
+
+
+def gen_annular(rng: random.Random, k: int) -> dict:
+    """annular polar / spherical grids (inner radius = a core of 1, 4, 8, 16 cells removed around the origin): the full product
+    grid family x core width x threshold rule x level option in 96 consecutive cases; the droplet covers the core, its interface
+    lies at least 2 widths + 3 cells outside the core and 2 widths + 2 cells inside the outer wall (seeded change C05-4 computed
+    the candidate radius without the inner radius: too small by the core, invisible for thin cores)"""
+    fam = ["polar", "spherical"][k % 2]
+    core = ANNULAR_CORES[(k // 2) % 4]
+    rule = RULES[(k // 8) % 4]
+    opt = OPTS[(k // 32) % 3]
+    h = rng.choice([0.5, 1.0, 0.75, 1.25, 0.625])
+    n = rng.randint(24, 36)
+    r_in = core * h
+    gs = {"family": fam, "radius": [r_in, r_in + n * h], "shape": n}
+    width = rng.uniform(1.0, 2.0) * h
+    lo, hi = r_in + 2 * width + 3 * h, r_in + n * h - 2 * width - 2 * h
+    truth = {"cls": "DiffuseDroplet", "position": [0.0] * (2 if fam == "polar" else 3), "radius": rng.uniform(lo, hi), "width": width}
+    isp = rc.gen_image_spec(rng, truth, ["clean", "affine"][(k // 96 + k) % 2])
+    return {"grid": gs, "image": isp, "rule": rule, "opt": opt, "straddles": "none", "dim": f"grid:annular_core_{core}"}
+
+
+def candidate_report(case: dict) -> str:
+    """what the located candidates (before refinement) look like next to the originals -- appended to failure messages so that a
+    wrong start (position, radius) is told apart from a fit that does not converge"""
+    try:
+        from droplets.image_analysis import locate_droplets
+        grid = rc.make_grid(case["grid"])
+        img = rc.make_image(case["image"], grid)
+        kw = locate_kwargs(case, grid)
+        cands = [rc.droplet_spec(d) for d in locate_droplets(img, threshold=threshold_of(case), **{**{k_: v for k_, v in kw.items() if k_ != "refine_args"}, "refine": False})]
+        h = float(grid.typical_discretization)
+        parts = []
+        for t in case["image"]["truth"]:
+            if not cands:
+                break
+            c = min(cands, key=lambda c_: abs(c_["radius"] - t["radius"]) + float(np.linalg.norm(np.array(c_["position"]) - np.array(t["position"]))))
+            parts.append(f"candidate before refinement: position {c['position']}, radius {c['radius']!r} = original radius "
+                         f"{(c['radius'] - t['radius']) / h:+.2f} cells")
+        return "; ".join(parts) or "no candidate was located before refinement"
+    except Exception as e:  # noqa
+        return f"candidates before refinement could not be determined: {type(e).__name__}: {e}"[:200]
+
+
+def candidate_radius_error(case: dict) -> float | None:
+    """|candidate radius - original radius| in cells for a single-droplet case (None when there is not exactly one candidate)"""
+    from droplets.image_analysis import locate_droplets
+    grid = rc.make_grid(case["grid"])
+    img = rc.make_image(case["image"], grid)
+    kw = locate_kwargs(case, grid)
+    cands = list(locate_droplets(img, threshold=threshold_of(case), **{**{k_: v for k_, v in kw.items() if k_ != "refine_args"}, "refine": False}))
+    if len(cands) != 1 or len(case["image"]["truth"]) != 1:
+        return None
+    return abs(float(cands[0].radius) - case["image"]["truth"][0]["radius"]) / float(grid.typical_discretization)
+
+
 def gen_emulsion(rng: random.Random, k: int) -> dict:
     """two well-separated droplets (interface gap >= 10 widths) side by side along the long axis: Cartesian 2-d (most), 1-d,
     3-d, and along the axis of a cylinder; the box starts at a random (also negative) origin"""
@@ -408,6 +466,15 @@ def count_dimensions(ctx, case: dict):
         ctx.count("cylinder_dz_vs_dr", "dz > dr" if hs[1] > hs[0] else "dz < dr" if hs[1] < hs[0] else "dz = dr")
     if gs["family"] in ("polar", "spherical"):
         ctx.count("inner_radius", "> 0" if axes[0][0] > 0 else "0")
+        core = axes[0][0] / hs[0]
+        ctx.count("annular_core_width_in_cells", "0" if core == 0 else "<= 2" if core <= 2 else str(int(round(core))) if core in (4, 8, 16) else "2 .. 4")
+        if case.get("dim", "").startswith("grid:annular"):
+            ctx.count("annular: family / rule / levels", f"{gs['family']} / {case['rule']} / {case['opt']}")
+            try:
+                e = candidate_radius_error(case)
+                ctx.count("annular: |candidate radius - original| in cells", "not one candidate" if e is None else "< 1" if e < 1 else "1 .. 2" if e < 2 else ">= 2")
+            except Exception as e_:  # noqa
+                ctx.count("annular: |candidate radius - original| in cells", f"raised {type(e_).__name__}")
     if gs["family"] == "cartesian" and len(axes) == 3 and sum(gs["periodic"]) == 1:
         ctx.count("single_periodic_axis_of_3", ["first", "middle", "last"][gs["periodic"].index(True)])
     for t in isp["truth"]:
@@ -535,7 +602,7 @@ def c05_oracle(case: dict) -> tuple[list[dict], list[tuple[float, float, float]]
         if f_["cls"] != want_cls:
             fails.append({"what": f"a returned droplet has class {f_['cls']}, expected {want_cls} (modes={nm})"})
     if len(found) != len(truths):
-        fails.append({"what": f"{len(found)} droplet(s) returned for {len(truths)} original(s)"})
+        fails.append({"what": f"{len(found)} droplet(s) returned for {len(truths)} original(s); " + candidate_report(case)})
         return fails, errs, calls
     used = set()
     for t in truths:
@@ -557,7 +624,8 @@ def c05_oracle(case: dict) -> tuple[list[dict], list[tuple[float, float, float]]
             best = (best[0], (0.0, best[1][1], best[1][2]))
         errs.append(best[1])
         if not max(best[1]) < TOL:
-            fails.append({"what": f"relative errors (position/cell, radius, width) = {best[1]} exceed {TOL}: original {t}, returned {found[best[0]]}"})
+            fails.append({"what": f"relative errors (position/cell, radius, width) = {best[1]} exceed {TOL}: original {t}, returned {found[best[0]]}; "
+                                  + candidate_report(case)})
     return fails, errs, calls
 
 
@@ -651,6 +719,9 @@ def check(ctx: vlib.Ctx) -> int:
     rng_d = random.Random(ctx.seed + 2)
     n_dim = ctx.scale(240, 1600) if not ctx.broken else ctx.scale(360, 2400)
     cases += [("dimensions", gen_dim_single(rng_d, k)) for k in range(n_dim)]
+    # annular polar / spherical grids: core width x family x threshold rule x level option (full product = 96 cases), own PRNG
+    rng_a = random.Random(ctx.seed + 3)
+    cases += [("annular", gen_annular(rng_a, k)) for k in range(ctx.scale(96, 576) if not ctx.broken else ctx.scale(192, 960))]
     all_err, fails, spec, fits = [], [], [], 0
     worst = []
     lits, lit_cases = [], []
@@ -690,7 +761,7 @@ def check(ctx: vlib.Ctx) -> int:
         for x in f:
             fails.append({"what": x["what"], "stream": tag, "input": json.loads(json.dumps(case))})
         # (c) per-candidate correspondence on a third of the single-droplet cases
-        if ok and tag in ("single", "dimensions") and k % 3 == 0 and not f and (case.get("extra") or {}).get("num_processes", 1) == 1:
+        if ok and tag in ("single", "dimensions", "annular") and k % 3 == 0 and not f and (case.get("extra") or {}).get("num_processes", 1) == 1:
             from droplets.image_analysis import locate_droplets
             grid = rc.make_grid(gs)
             img = rc.make_image(case["image"], grid)
